@@ -259,40 +259,60 @@ Definition wrapping_ok (o : obs) : bool :=
 (* ---- registration history (harness/src/vmrun.rs REG_OPS / REG_PROBES: the same constants) ----
    VmReserved answers = 4 fixed answers (rejected "__mine", accepted "_x", rejected "__min", accepted "a__b"), then
    for the history REG_OPS run on a new VM after the menu: accepted? per registration; then for every probe name,
-   for every id 1..11 whether the function registered with that id ran when the program CallNative(probe) was run,
-   and whether the run ended with ProcedureNotFound. *)
+   for every id 1..15 whether the function registered with that id ran when the program CallNative(probe) was run,
+   and whether the run ended with ProcedureNotFound; finally 3 observations of a program that uses std.min / max /
+   sorted / to_array run after the history (Ok, same globals as on a VM without the history, no registered
+   function ran). *)
 Definition reg_names : list (string * N) :=
   [("__mine", 1); ("_x", 2); ("__min", 3); ("a__b", 4); ("f", 5); ("f", 6); ("_x", 7); ("__to_array", 8);
-   ("log1", 9); ("_", 10); ("__", 11)]%string.
+   ("log1", 9); ("_", 10); ("__", 11);
+   (* ordinary names with the handles of __min / __max / __sort / __to_array (N-C18-1, repaired by d80a79a) *)
+   ("tuewgsg", 12); ("zjyliqo", 13); ("catpprn", 14); ("hcsvhfo", 15)]%string.
 Definition reg_probe_names : list string := ["f"; "_x"; "a__b"; "log1"; "__mine"; "g"; "_"; "__"]%string.
-Definition reg_ids : list N := [1; 2; 3; 4; 5; 6; 7; 8; 9; 10; 11].
+Definition reg_ids : list N := [1; 2; 3; 4; 5; 6; 7; 8; 9; 10; 11; 12; 13; 14; 15].
 
 Definition reg_ops : list (list N * hostfn) := map (fun x => (bytes_of (fst x), UserFn (snd x))) reg_names.
+
+(* the library's natives are still the registered ones: then a program using std.min / max / sorted / to_array
+   runs as on a VM without the history (3 observations: the run is Ok, its globals are those of the fresh VM, no
+   registered function ran) *)
+Definition std_intact (r : registry) : bool :=
+  forallb (fun n => match reg_get r (handle_of_bytes (native_name n)) with
+                    | Some (mkProc nm (StdFn m)) =>
+                        list_eqb N.eqb nm (native_name n) && list_eqb N.eqb (native_name m) (native_name n)
+                    | _ => false
+                    end) std_natives.
 
 (* model: VmRegistry.run_public on the registry of a new VM with the menu *)
 Definition reg_expected : list bool :=
   let '(r, answers) := run_public menu_registry reg_ops in
-  map (fun a => match a with RegOk => true | RegRejected => false end) answers ++
+  map is_ok answers ++
   flat_map (fun p =>
               let got := reg_get r (handle_of_bytes (bytes_of p)) in
               map (fun k => match got with Some (mkProc _ (UserFn id)) => N.eqb id k | _ => false end) reg_ids ++
-              [match got with None => true | Some _ => false end]) reg_probe_names.
+              [match got with None => true | Some _ => false end]) reg_probe_names ++
+  [std_intact r; std_intact r; std_intact r].
 
-(* specification, by NAME (independent of the registry model and of the hash): a registration is accepted iff the
-   name does not start with "__"; CallNative(name) runs the function of the last accepted registration of that
-   name, a menu native if the name was never (acceptably) registered and is in the menu, otherwise
-   ProcedureNotFound *)
+(* specification, by NAME (independent of the registry model and of the hash function): a library native is never
+   replaced, and an accepted registration is callable under its name - so a name starting with "__" is rejected,
+   and so are the four names known to share a handle with a library native; every other name is accepted;
+   CallNative(name) runs the function of the last accepted registration of that name, a menu native if the name was
+   never acceptably registered and is in the menu, otherwise ProcedureNotFound; the library still works *)
 Definition reserved_string (s : string) : bool :=
   match s with String "_" (String "_" _) => true | _ => false end.
+Definition shares_library_handle (s : string) : bool :=
+  existsb (String.eqb s) ["tuewgsg"; "zjyliqo"; "catpprn"; "hcsvhfo"]%string.
+Definition spec_accepts (s : string) : bool := negb (reserved_string s) && negb (shares_library_handle s).
 Definition reg_spec : list bool :=
-  map (fun x => negb (reserved_string (fst x))) reg_names ++
+  map (fun x => spec_accepts (fst x)) reg_names ++
   flat_map (fun p =>
-              let winner := find (fun x => String.eqb (fst x) p && negb (reserved_string (fst x))) (rev reg_names) in
+              let winner := find (fun x => String.eqb (fst x) p && spec_accepts (fst x)) (rev reg_names) in
               map (fun k => match winner with Some (_, id) => N.eqb id k | None => false end) reg_ids ++
               [match winner with
                | Some _ => false
                | None => negb (existsb (fun n => list_eqb N.eqb (native_name n) (bytes_of p)) all_natives)
-               end]) reg_probe_names.
+               end]) reg_probe_names ++
+  [true; true; true].
 
 Definition strip_obs (o : obs) : obs :=
   mkObs (ob_out o) (ob_globals o) (filter (fun e => negb (is_record e)) (ob_log o)) (ob_shape o).
